@@ -71,8 +71,8 @@ class Case(object):
         steps = []
         for _ in range(rng.randrange(12, 41)):
             c = rng.randrange(len(self.configs))
-            op = rng.choices(['create', 'save', 'get', 'meta', 'list', 'close', 'exit', 'save_foreign_rec', 'toggle_read_only', 'toggle_transient', 'use_copy', 'resave'],
-                             [6, 8, 3, 2, 3, 1, 1, 1, 0.5, 0.4, 0.5, 2.5])[0]
+            op = rng.choices(['create', 'save', 'get', 'meta', 'list', 'close', 'exit', 'save_foreign_rec', 'toggle_read_only', 'toggle_transient', 'use_copy', 'resave', 'save_again'],
+                             [6, 8, 3, 2, 3, 1, 1, 1, 0.5, 0.4, 0.5, 2.5, 2.5])[0]
             steps.append((op, c, rng.randrange(1000)))
         self.steps = steps
         self.witness['configs'] = self.configs
@@ -153,6 +153,7 @@ class Case(object):
                     in_save[0] += 1
             fake.on_mutation = hook
             pool = []      # live recordings (cfg index, recording)
+            last_saved = {}
             saved_ids = []
             reached_bucket = False
             for si, (op, ci, r) in enumerate(self.steps):
@@ -165,8 +166,14 @@ class Case(object):
                         rec.set_data('k', r)
                         rec.add_metadata({'r': r})
                         pool.append((ci, rec))
-                    elif op in ('save', 'save_foreign_rec', 'resave'):
-                        if op == 'resave':
+                    elif op in ('save', 'save_foreign_rec', 'resave', 'save_again'):
+                        if op == 'save_again':
+                            # the very recording object this cassette saved last is saved once more, unchanged (a retry, an idempotent flush)
+                            if ci not in last_saved or cfg['read_only']:
+                                continue
+                            pi, rec = ci, last_saved[ci]
+                            ctx.count('unchanged_resaves')
+                        elif op == 'resave':
                             # a recording that is already stored is fetched, completed and saved again under its id
                             mine = [rid for cj, rid in saved_ids if self.configs[cj]['prefix'] == cfg['prefix'] and self.configs[cj].get('layout') == cfg.get('layout')]
                             if not mine or cfg['read_only']:
@@ -191,6 +198,7 @@ class Case(object):
                         in_save[0] = 0
                         try:
                             c.save_recording(rec)
+                            last_saved[ci] = rec
                             if len(fake.log) > nlog:
                                 saved_ids.append((ci, rec.id))
                                 reached_bucket = True
@@ -360,8 +368,47 @@ def concurrent_saves(ctx):
         S.explore_random(make, tg, ctx.budget(40, 3000), ctx.rng, on_run)
 
 
+def wipe_then_resave(ctx):
+    """A recorder's cassette P saves R; the prefix is wiped by a second, transient cassette object that is closed (the clean-up idiom
+    `with S3TapeCassette(..., transient=True, read_only=False): pass`); P saves the same, unchanged R again. Whatever lookup discovers
+    afterwards must be completely fetchable (and R, just saved, must be there)."""
+    from playback.exceptions import NoSuchRecording
+    for prefix in PREFIXES:
+        for between in ('wipe', 'nothing', 'other_save'):
+            fake = FakeS3()
+            with fake.installed():
+                p = fake.cassette('p', key_prefix=prefix, read_only=False)
+                r = p.create_new_recording('Op')
+                r.set_data('k', 'v')
+                r.add_metadata({'m': 1})
+                p.save_recording(r)
+                if between == 'wipe':
+                    with fake.cassette('t', key_prefix=prefix, read_only=False, transient=True):
+                        pass
+                elif between == 'other_save':
+                    o = p.create_new_recording('Op')
+                    p.save_recording(o)
+                p.save_recording(r)
+                ctx.case(('wipe_then_resave', prefix, between))
+                ctx.count('wipe_then_resave_histories')
+                rd = fake.cassette('r', key_prefix=prefix, read_only=True)
+                listed = list(rd.iter_recording_ids('Op'))
+                w = {'wipe_then_resave': True, 'prefix': prefix, 'between': between}
+                if r.id not in listed:
+                    ctx.violation('a recording saved (again) after the prefix was cleaned is not discoverable', w)
+                for rid in listed:
+                    try:
+                        rd.get_recording(rid)
+                        rd.get_recording_metadata(rid)
+                    except NoSuchRecording:
+                        ctx.violation('a discoverable recording is not completely fetchable after an unchanged recording was saved again (%s in between)' % between, w)
+                        break
+
+
 def run(ctx):
     concurrent_saves(ctx)
+    if ctx.shard == 0:
+        wipe_then_resave(ctx)
     from playback.tape_cassettes.s3.s3_tape_cassette import S3TapeCassette
     env.anchor(S3TapeCassette, '_save_recording')
     n = ctx.budget(300, 20000)
@@ -375,5 +422,9 @@ def run(ctx):
 
 
 def replay(ctx, w):
+    if w.get('wipe_then_resave'):
+        return wipe_then_resave(ctx)
+    if w.get('concurrent_saves'):
+        return concurrent_saves(ctx)
     cc = Case(ctx, w['case_seed'], crash=tuple(w['crash']) if w.get('crash') else None)
     cc.run()
